@@ -30,7 +30,8 @@ pub fn check_case(rep: &Report, case: &Case, labels: &[String], local: &mut Loca
             }
             Err(e) => {
                 local.outcome(&format!("{}:fail:{}", mode.name(), e.class()));
-                rep.violation(
+                rep.violation_x(
+                    mode == Mode::Mt,
                     &format!("encode_fail|{}", e.class()),
                     &format!("{} encode failed: {}", mode.name(), e.describe()),
                     case.json(),
